@@ -2,6 +2,7 @@
    GENERATED from Properties/src/C02.props by tools/mkprops.py; property theorems only. *)
 From SP Require Import Model.Syntax Model.Scanner.
 From SP Require Import Proofs.PegP Proofs.SyntaxP Proofs.ParseP Proofs.TemplateLaws.
+From SP Require Import Proofs.ArgP Proofs.NumP Proofs.RangeSynP Proofs.OpSynP Proofs.BlockSynP.
 
 (* every index and range bound, printed in decimal, is read back exactly *)
 Theorem C02_numbers_roundtrip_isize :
@@ -49,6 +50,135 @@ Proof. exact grammar_checked. Qed.
 Check C02_tree_shape :
   all_rules chk r_template = true.
 Print Assumptions C02_tree_shape.
+
+(* on the grammar regenerated from template.pest: rule `number` reads exactly the decimal
+   spelling of ANY integer, whatever non-digit follows *)
+Theorem C02_number_rule_reads_printed_numeral :
+  forall (a : bool) (z : Z) (rest : str), no_digit_head rest ->
+  run r_number a (print_Z z ++ rest) = Some (print_Z z, tok a R_number (print_Z z), rest).
+Proof. exact run_number_print. Qed.
+Check C02_number_rule_reads_printed_numeral :
+  forall (a : bool) (z : Z) (rest : str), no_digit_head rest ->
+  run r_number a (print_Z z ++ rest) = Some (print_Z z, tok a R_number (print_Z z), rest).
+Print Assumptions C02_number_rule_reads_printed_numeral.
+
+(* rule range_spec and the converter's parse_range_spec: each of the ten range shapes
+   (N, .., ..=, A.., A..=, ..B, ..=B, A..B, A..=B) with ANY bounds in isize is read back as
+   exactly that range -- bounds, open ends and inclusiveness *)
+Theorem C02_every_range_form :
+  forall (r : range) (rest : str), range_ok r = true -> op_stops rest ->
+  exists k, run r_range_spec false (print_range r ++ rest) = Some (print_range r, [k], rest)
+            /\ parse_range_spec k = Ok r.
+Proof. exact range_spec_roundtrip. Qed.
+Check C02_every_range_form :
+  forall (r : range) (rest : str), range_ok r = true -> op_stops rest ->
+  exists k, run r_range_spec false (print_range r ++ rest) = Some (print_range r, [k], rest)
+            /\ parse_range_spec k = Ok r.
+Print Assumptions C02_every_range_form.
+
+(* the shorthand spellings {N} and {A..B}: for every range, rule operation reads the bare
+   range as split on a space with that range *)
+Theorem C02_shorthand_is_split_on_space :
+  forall (r : range) (rest : str), range_ok r = true -> op_stops rest ->
+  exists k, run r_operation false (print_range r ++ rest)
+            = Some (print_range r, [Node (Some R_operation) (print_range r) [k]], rest)
+            /\ parse_operation k = Ok (Split space_sep r).
+Proof. exact shorthand_roundtrip. Qed.
+Check C02_shorthand_is_split_on_space :
+  forall (r : range) (rest : str), range_ok r = true -> op_stops rest ->
+  exists k, run r_operation false (print_range r ++ rest)
+            = Some (print_range r, [Node (Some R_operation) (print_range r) [k]], rest)
+            /\ parse_operation k = Ok (Split space_sep r).
+Print Assumptions C02_shorthand_is_split_on_space.
+
+(* every spelling of every non-regex operation, in the rule family used inside map:{...} *)
+Theorem C02_operation_inside_map :
+  forall (o : op) (txt rest : str), spells_simple o txt -> op_stops rest ->
+  exists k, run r_map_inner_operation false (txt ++ rest) = Some (txt, [Node (Some R_map_inner_operation) txt [k]], rest)
+            /\ parse_map_inner_operation k = Ok o.
+Proof. exact inner_reads_spelled. Qed.
+Check C02_operation_inside_map :
+  forall (o : op) (txt rest : str), spells_simple o txt -> op_stops rest ->
+  exists k, run r_map_inner_operation false (txt ++ rest) = Some (txt, [Node (Some R_map_inner_operation) txt [k]], rest)
+            /\ parse_map_inner_operation k = Ok o.
+Print Assumptions C02_operation_inside_map.
+
+(* ... and in the top-level rule family, where the shorthand and map:{...} are spellings too *)
+Theorem C02_operation_at_top_level :
+  forall (o : op) (txt rest : str), spells o txt -> op_stops rest ->
+  exists k, run r_operation false (txt ++ rest) = Some (txt, [Node (Some R_operation) txt [k]], rest)
+            /\ parse_operation k = Ok o.
+Proof. exact operation_reads. Qed.
+Check C02_operation_at_top_level :
+  forall (o : op) (txt rest : str), spells o txt -> op_stops rest ->
+  exists k, run r_operation false (txt ++ rest) = Some (txt, [Node (Some R_operation) txt [k]], rest)
+            /\ parse_operation k = Ok o.
+Print Assumptions C02_operation_at_top_level.
+
+(* THE PARSE-FIDELITY THEOREM for the regex-free operations: take ANY pipeline, of any
+   length, and for each operation ANY of its documented spellings (canonical, quote for
+   surround, trim / trim:chars / trim:dir / trim:chars:dir, sort / sort:asc / sort:desc,
+   pad:w / pad:w:c / pad:w:c:dir, shorthand {N} {A..B}, map:{...} over inner spellings), with
+   ANY argument text written with the documented escapes, ANY range with bounds in isize and
+   ANY width in usize, with or without the debug marker: the grammar regenerated from
+   template.pest and the converter of parser.rs return exactly that pipeline -- same
+   operations, same order, every argument unchanged -- and the debug flag exactly as written *)
+Theorem C02_every_spelling_roundtrip :
+  forall (dbg : bool) (items : list (op * str)), all_spelled spells items ->
+  parse_template (block_text dbg items) = Ok (ops_of items, dbg).
+Proof. exact spelled_block_roundtrip. Qed.
+Check C02_every_spelling_roundtrip :
+  forall (dbg : bool) (items : list (op * str)), all_spelled spells items ->
+  parse_template (block_text dbg items) = Ok (ops_of items, dbg).
+Print Assumptions C02_every_spelling_roundtrip.
+
+(* ... and the template constructor (single-block shortcut of template.rs included) builds
+   one section holding exactly those operations *)
+Theorem C02_template_object_of_spelled_block :
+  forall (dbg : bool) (items : list (op * str)), all_spelled spells items ->
+  template_parse (block_text dbg items)
+  = Ok {| t_raw := block_text dbg items; t_sections := [Sec (ops_of items)]; t_debug := dbg |}.
+Proof. exact template_of_spelled_block. Qed.
+Check C02_template_object_of_spelled_block :
+  forall (dbg : bool) (items : list (op * str)), all_spelled spells items ->
+  template_parse (block_text dbg items)
+  = Ok {| t_raw := block_text dbg items; t_sections := [Sec (ops_of items)]; t_debug := dbg |}.
+Print Assumptions C02_template_object_of_spelled_block.
+
+(* two spellings of the same pipeline give the same sections *)
+Theorem C02_spellings_agree :
+  forall (dbg : bool) (items1 items2 : list (op * str)), all_spelled spells items1 -> all_spelled spells items2 ->
+  ops_of items1 = ops_of items2 ->
+  omap t_sections (template_parse (block_text dbg items1)) = omap t_sections (template_parse (block_text dbg items2)).
+Proof. exact spellings_agree. Qed.
+Check C02_spellings_agree :
+  forall (dbg : bool) (items1 items2 : list (op * str)), all_spelled spells items1 -> all_spelled spells items2 ->
+  ops_of items1 = ops_of items2 ->
+  omap t_sections (template_parse (block_text dbg items1)) = omap t_sections (template_parse (block_text dbg items2)).
+Print Assumptions C02_spellings_agree.
+
+(* the canonical printer (Model/Syntax.v print_block, which the harness also feeds to the
+   real parser on every run) is one of those spellings *)
+Theorem C02_canonical_printer_roundtrip :
+  forall (ops : list op), forallb printable ops = true -> parse_template (print_block ops) = Ok (ops, false).
+Proof. exact block_roundtrip. Qed.
+Check C02_canonical_printer_roundtrip :
+  forall (ops : list op), forallb printable ops = true -> parse_template (print_block ops) = Ok (ops, false).
+Print Assumptions C02_canonical_printer_roundtrip.
+
+(* the meaning of the text: formatting the parsed template is running the printed operations
+   under the documented semantics (Spec), for every input *)
+Theorem C02_printed_text_means_its_operations :
+  forall (E : Env), L1 replace_meta E -> forall (ops : list op) (x : str), forallb printable ops = true ->
+  bind (template_parse (print_block ops)) (fun t => run_pure (impl_format E t x)) = spec_run E ops x.
+Proof. exact printed_block_means_ops. Qed.
+Check C02_printed_text_means_its_operations :
+  forall (E : Env), L1 replace_meta E -> forall (ops : list op) (x : str), forallb printable ops = true ->
+  bind (template_parse (print_block ops)) (fun t => run_pure (impl_format E t x)) = spec_run E ops x.
+Print Assumptions C02_printed_text_means_its_operations.
+
+(* non-vacuity: a pipeline mixing spellings satisfies the premises *)
+Check spelled_example.
 
 (* the spellings of the documentation, evaluated by the kernel on the regenerated grammar *)
 Definition cps (l : list N) : str := l.
